@@ -48,8 +48,6 @@ macro_rules! raise_resolution_error {
 // D-msg: `unreachable!(..)` with a message becomes the message-free obligation `false`
 macro_rules! unreachable { ($($t:tt)*) => { return vstd::pervasive::unreached() }; }
 pub assume_specification [ <String as PartialEq<str>>::eq ] (a: &String, b: &str) -> (r: bool) ensures r == (a@ == b@);
-#[verifier::external_body]
-fn opaque_names(v: &Vec<Identifier>) -> Vec<String> { unimplemented!() }
 
 // ================= specification vocabulary =======================================================
 spec fn is_prefix<T>(a: Seq<T>, b: Seq<T>) -> bool { a.len() <= b.len() && b.subrange(0, a.len() as int) =~= a }
@@ -94,6 +92,14 @@ spec fn params_const(ps: Seq<(String, Ref, Span, Type)>, vars: Seq<Var>) -> bool
 spec fn params_tys(ps: Seq<(String, Ref, Span, Type)>, n: int) -> bool {
     forall|k: int| 0 <= k < ps.len() ==> rt_up((#[trigger] ps[k]).3, n)
 }
+/// every field / variant type of a declaration is one the type checker can translate
+spec fn fields_tys(m: Map<String, (Span, Type)>, n: int) -> bool { forall|k: String| #[trigger] m.contains_key(k) ==> rt_up(m[k].1, n) }
+/// assumption A-hash-identifier: Hash and Eq of Identifier are a lawful hash-table key. True since fix 3d45733
+/// (both look at the name only; before it the derived Hash also hashed the span - see DESIGN 0.5)
+#[verifier::external_body]
+proof fn axiom_identifier_hash_key() ensures vstd::std_specs::hash::obeys_key_model::<Identifier>() {}
+#[verifier::external_body]
+proof fn axiom_string_hash_key() ensures vstd::std_specs::hash::obeys_key_model::<String>() {}
 spec fn fields_nodecl(fs: Seq<(String, Expression)>) -> bool { forall|i: int| 0 <= i < fs.len() ==> e_nodecl((#[trigger] fs[i]).1) }
 spec fn fields_up(fs: Seq<(String, Expression)>, n: int) -> bool { forall|i: int| 0 <= i < fs.len() ==> e_up((#[trigger] fs[i]).1, n) }
 spec fn all_nodecl(ss: Seq<Statement>) -> bool { forall|i: int| 0 <= i < ss.len() ==> s_nodecl(#[trigger] ss[i]) }
@@ -275,8 +281,6 @@ impl Resolver {
         broadcast use group_rt_up;
 //@   endghost
 //@ end
-    #[verifier::external_body]
-    fn opaque_fields(&self, f: &HashMap<Identifier, ParserType>) -> ResolveResult<HashMap<String, (Span, Type)>> { unimplemented!() }
 
 // ---- lookup: innermost binding first, then the file's globals (C09) ------------------------------
 //@ fn sylt-compiler/src/name_resolution.rs lookup
@@ -684,27 +688,57 @@ impl Resolver {
 //@   props C09 C02 C07
 //@   attr #[verifier::exec_allows_no_decreases_clause]
 //@   ret r
-//@   rewrite opaque count=2
+//@   rewrite equivalent count=2
 //@- variables: variables.iter().map(|var| var.name.clone()).collect(),
-//@+ variables: opaque_names(variables),
-//@   why iterator map/collect is outside Verus; the value only fills the generic-parameter name list of a top-level declaration and touches no resolver state
+//@+ variables: { let mut names: Vec<String> = Vec::new();
+//@+ for var in variables.iter() { names.push(var.name.clone()); }
+//@+ names },
+//@   why map/collect into a Vec pushes one result per element, in order (a block expression in the same field position keeps the evaluation order of the fields)
 //@   endrewrite
-//@   rewrite opaque
+//@   rewrite equivalent
 //@- fields: fields
 //@-     .iter()
 //@-     .map(|(field, ty)| Ok((field.name.clone(), (field.span, self.ty(ty)?))))
 //@-     .collect::<ResolveResult<_>>()?,
-//@+ fields: self.opaque_fields(fields)?,
-//@   why iterator map/collect with a fallible closure is outside Verus; the closure only calls self.ty (a &self function): no resolver state changes, and an error propagates with ? as before
+//@+ fields: { let mut resolved: HashMap<String, (Span, Type)> = HashMap::new();
+//@+ for (field, ty) in fields.iter() { resolved.insert(field.name.clone(), (field.span, self.ty(ty)?)); }
+//@+ resolved },
+//@   why collecting Results into a HashMap stops at the first Err, which `?` returns, and inserts the Ok pairs in iteration order, a later equal key replacing the earlier one: this loop
 //@   endrewrite
-//@   rewrite opaque
+//@   rewrite equivalent
 //@- variants: variants
 //@-     .iter()
 //@-     .map(|(var, ty)| Ok((var.name.clone(), (var.span, self.ty(ty)?))))
 //@-     .collect::<ResolveResult<_>>()?,
-//@+ variants: self.opaque_fields(variants)?,
+//@+ variants: { let mut resolved: HashMap<String, (Span, Type)> = HashMap::new();
+//@+ for (var, ty) in variants.iter() { resolved.insert(var.name.clone(), (var.span, self.ty(ty)?)); }
+//@+ resolved },
 //@   why as for fields
 //@   endrewrite
+//@   loop 1
+//@| for var in variables.iter()
+            invariant self.inv(), self.stack@ == old(self).stack@, self.frame(old(self)), self.variables@ == old(self).variables@, //# C07,C09 statement.loop1.aux1
+//@   endloop
+//@   loop 2 binder itf
+//@| for (field, ty) in fields.iter()
+            invariant self.inv(), self.stack@ == old(self).stack@, self.frame(old(self)), self.variables@ == old(self).variables@, //# C07,C09 statement.loop2.aux1
+                forall|j: int| 0 <= j < itf.seq().len() ==> fields@.contains_pair(*(#[trigger] itf.seq()[j]).0, *itf.seq()[j].1), //# - statement.loop2.aux2
+                fields_tys(resolved@, self.variables@.len() as int), //# C07 statement.loop2.field_types_so_far_are_translatable
+                forall|k: Identifier| #[trigger] fields@.contains_key(k) ==> sylt_parser::pt_ok(fields@[k]), //# C07 statement.loop2.aux3
+                vstd::std_specs::hash::obeys_key_model::<String>(), //# C07 statement.loop2.aux4
+//@   endloop
+//@   loop 3
+//@| for var in variables.iter()
+            invariant self.inv(), self.stack@ == old(self).stack@, self.frame(old(self)), self.variables@ == old(self).variables@, //# C07,C09 statement.loop3.aux1
+//@   endloop
+//@   loop 4 binder itv
+//@| for (var, ty) in variants.iter()
+            invariant self.inv(), self.stack@ == old(self).stack@, self.frame(old(self)), self.variables@ == old(self).variables@, //# C07,C09 statement.loop4.aux1
+                forall|j: int| 0 <= j < itv.seq().len() ==> variants@.contains_pair(*(#[trigger] itv.seq()[j]).0, *itv.seq()[j].1), //# - statement.loop4.aux2
+                fields_tys(resolved@, self.variables@.len() as int), //# C07 statement.loop4.variant_types_so_far_are_translatable
+                forall|k: Identifier| #[trigger] variants@.contains_key(k) ==> sylt_parser::pt_ok(variants@[k]), //# C07 statement.loop4.aux3
+                vstd::std_specs::hash::obeys_key_model::<String>(), //# C07 statement.loop4.aux4
+//@   endloop
 //@   spec
         requires
             sylt_parser::ps_shape(*stmt), //# C07 statement.pre.parser_tree_shape
@@ -728,9 +762,12 @@ impl Resolver {
             r is Ok && stmt.kind is Definition && old(self).stack@.len() > 0 && !(stmt.kind->Definition_value.kind is Function) ==>
                 e_up(r->Ok_0->Some_0->Definition_value, r->Ok_0->Some_0->Definition_var as int), //# C09 statement.initialiser_cannot_see_the_variable_it_defines
             r is Ok && r->Ok_0 is Some ==> s_shape(r->Ok_0->Some_0), //# C07 statement.result_shape
+            r is Ok && r->Ok_0 is Some && r->Ok_0->Some_0 is Blob ==> fields_tys(r->Ok_0->Some_0->Blob_fields@, final(self).variables@.len() as int), //# C07 statement.field_types_of_a_blob_declaration_are_translatable
+            r is Ok && r->Ok_0 is Some && r->Ok_0->Some_0 is Enum ==> fields_tys(r->Ok_0->Some_0->Enum_variants@, final(self).variables@.len() as int), //# C07 statement.variant_types_of_an_enum_declaration_are_translatable
 //@   endspec
 //@   ghost entry
-        broadcast use group_up;
+        broadcast use group_up, vstd::std_specs::hash::group_hash_axioms;
+        proof { axiom_identifier_hash_key(); axiom_string_hash_key(); }
 //@   endghost
 //@ end
 }
